@@ -11,6 +11,7 @@ from __future__ import annotations
 
 import itertools
 import time
+from typing import List, Union
 
 from jsonargparse import ArgumentParser, Namespace
 from jsonargparse import _link_arguments as la
@@ -159,6 +160,10 @@ def gen_case(rng):
             a["fn"] = "fn2"
             if a["nested"] != b["nested"]:
                 a["nested"] = False
+    # sinks of the DAG may be a list of class instances or a Union[bool, Class] argument: the link feeds every instance
+    for i in range(k):
+        if not holder[i] and not any(s == i for s, _ in edges) and rng.random() < 0.35:
+            kinds[i] = rng.choice(["listarg", "listarg", "unionarg"])
     rng.shuffle(links)
     decl = list(range(k))
     rng.shuffle(decl)
@@ -178,6 +183,10 @@ def build(case, upto=None):
             p.add_class_arguments(cls, name)
         elif kind == "arg":
             p.add_argument(f"--{name}", type=cls)
+        elif kind == "listarg":
+            p.add_argument(f"--{name}", type=List[cls])
+        elif kind == "unionarg":
+            p.add_argument(f"--{name}", type=Union[bool, cls])
         else:
             p.add_subclass_arguments(cls, name)
     for l in case["links"][:upto]:
@@ -210,6 +219,11 @@ def argv_for(case, bad_sink=None):
         name, kind = case["names"][i], case["kinds"][i]
         own = 13 if i == bad_sink else case["owns"][i]
         cname = node_class(case, i).__name__
+        if kind == "listarg":
+            for _ in range(2):
+                argv.append(f"--{name}+=vf.fixtures.zoo16.{cname}")
+                argv.append(f"--{name}.init_args.own={own}")
+            continue
         if kind == "group":
             argv.append(f"--{name}.own={own}")
             if cname.startswith("H"):
@@ -255,9 +269,14 @@ def e2e_case(ctx, case):
     for i in range(case["k"]):
         for cn in [node_class(case, i).__name__] + ([f"N{i}"] if holders[i] else []):
             c = names.count(cn)
+            if case["kinds"][i] == "listarg":
+                ctx.count("st.e2e.list_of_instances_as_target")
+                c = 1 if c == 2 else (0 if c < 2 else c)
             if c != 1:
                 return (f"e2e/constructed-{'twice' if c > 1 else 'never'}{'/nested' if cn.startswith('N') else ''}", dict(case=case, log=names))
-    pos = {n: i for i, n in enumerate(names)}
+    pos = {}
+    for idx, n in enumerate(names):
+        pos.setdefault(n, idx)  # first construction of the class (a list argument builds several)
     for i in range(case["k"]):
         if holders[i]:
             ctx.count("st.e2e.holder_components")
@@ -266,6 +285,13 @@ def e2e_case(ctx, case):
     for l in case["links"]:
         t = l["tgt"]
         tobj = init[case["names"][t]]
+        tobjs = [tobj]
+        if case["kinds"][t] == "listarg":
+            if not isinstance(tobj, list) or len(tobj) != 2:
+                return ("e2e/target-list-not-instantiated", dict(case=case, got=short(tobj)))
+            tobjs, tobj = tobj, tobj[0]
+        if case["kinds"][t] == "unionarg":
+            ctx.count("st.e2e.union_typed_target")
         if not isinstance(tobj, node_class(case, t)):
             return ("e2e/target-not-instantiated", dict(case=case, got=short(tobj)))
         tname = node_class(case, t).__name__
@@ -283,27 +309,30 @@ def e2e_case(ctx, case):
             if not isinstance(sobj, node_class(case, s)):
                 return ("e2e/source-not-instantiated", dict(case=case, got=short(sobj)))
             vals.append(sobj if how == "obj" else sobj.attr)
-        got = tobj.kw[l["param"]]
-        if l["fn"] == "fn2":
-            ok = isinstance(got, tuple) and len(got) == 3 and got[0] == "fn2" and _same_obj(got[1], vals[0]) and _same_obj(got[2], vals[1])
-        elif l["fn"]:
-            ok = isinstance(got, tuple) and len(got) == 2 and got[0] == "fn" and _same_obj(got[1], vals[0])
-        else:
-            ok = _same_obj(got, vals[0])
-        if not ok:
-            return ("e2e/target-parameter-wrong-value", dict(case=case, link=l, got=short(got), expected=short(vals)))
+        for one in (tobjs if not l.get("nested") else [tobj]):
+            got = one.kw[l["param"]]
+            if l["fn"] == "fn2":
+                ok = isinstance(got, tuple) and len(got) == 3 and got[0] == "fn2" and _same_obj(got[1], vals[0]) and _same_obj(got[2], vals[1])
+            elif l["fn"]:
+                ok = isinstance(got, tuple) and len(got) == 2 and got[0] == "fn" and _same_obj(got[1], vals[0])
+            else:
+                ok = _same_obj(got, vals[0])
+            if not ok:
+                return (f"e2e/target-parameter-wrong-value{'/' + case['kinds'][t] if case['kinds'][t] in ('listarg', 'unionarg') else ''}", dict(case=case, link=l, got=short(got), expected=short(vals)))
     # own values must be what was configured (no cross-talk between components)
     for i in range(case["k"]):
-        if init[case["names"][i]].kw["own"] != case["owns"][i]:
-            return ("e2e/own-parameter-wrong", dict(case=case, i=i, got=init[case["names"][i]].kw["own"]))
+        objs = init[case["names"][i]]
+        for one in objs if isinstance(objs, list) else [objs]:
+            if one.kw["own"] != case["owns"][i]:
+                return ("e2e/own-parameter-wrong", dict(case=case, i=i, got=one.kw["own"]))
     # instantiating again gives fresh objects, same order rules (exactly once per call)
     zoo16.LOG.clear()
     o2 = call(p.instantiate_classes, cfg)
-    if not o2.accepted or len(zoo16.LOG) != case["k"] + sum(holders[: case["k"]]):
+    if not o2.accepted or len(zoo16.LOG) != case["k"] + sum(holders[: case["k"]]) + sum(1 for kd in case["kinds"] if kd == "listarg"):
         return ("e2e/second-instantiate-differs", dict(case=case, outcome=o2.brief(), log=[x[0] for x in zoo16.LOG]))
     # cycle probes on fresh parsers: reversed edges of the transitive closure must be refused
     reach = _closure(case["k"], case["edges"])
-    probes = [(b, a) for a, b in reach]
+    probes = [(b, a) for a, b in reach if case["kinds"][b] not in ("listarg", "unionarg")]
     if probes:
         b, a = probes[ctx.case_rng(ctx.case_index or 0, "probe").randrange(len(probes))]
         fresh = build(case)
